@@ -63,6 +63,62 @@ def drive_dom(c, form):
     return {'k': 'dom', 'd': d, 'obs': obs, 'tag': ['dom', d['cls'], form]}
 
 
+def drive_dom_hist(d, d2, how):
+    """FiniteDomain(list), then the caller changes the list (append / pop / reverse / clear): d2 is what the list spells now"""
+    from fggs.domains import FiniteDomain
+    vals = [PY[v] for v in d['vals']]
+    D = FiniteDomain(vals)
+    vals[:] = [PY[v] for v in d2['vals']]         # in-place change of the caller's list
+    c = drive_dom({'d': d}, 'list')               # shape of the record only; observations are retaken below
+    obs = {'out': 'ok', 'size': -1, 'num': [], 'den': [], 'con': []}
+    try:
+        obs['size'] = D.size()
+        for v in PROBE:
+            try:
+                obs['num'].append([v, int(D.numberize(PYP[v]))])
+            except Exception:
+                obs['num'].append([v, -1])
+            obs['con'].append([v, bool(D.contains(PYP[v]))])
+        inv = {PY[k]: k for k in PY}
+        for i in range(max(0, obs['size'])):
+            try:
+                obs['den'].append([i, inv.get(D.denumberize(i), -1)])
+            except Exception:
+                obs['den'].append([i, -2])
+    except Exception as e:  # noqa
+        obs['out'] = 'raise:' + type(e).__name__
+    return {'k': 'dom_hist', 'd': d, 'd2': d2, 'obs': obs, 'tag': ['dom_hist', how]}
+
+
+def drive_bind(c, host):
+    """add_factor on a fresh FGG / FactorGraph in which node labels A and B are bound"""
+    import fggs, torch
+    from fggs.factors import FiniteFactor
+    r = dict(c, out='ok', shape=[], second_rejected=True, bound_after=False, tag=['bind', host])
+    try:
+        g = fggs.FGG('S') if host == 'fgg' else fggs.FactorGraph()
+        nl = {'A': fggs.NodeLabel('A'), 'B': fggs.NodeLabel('B')}
+        g.add_domain(nl['A'], mkdom(c['a']))
+        g.add_domain(nl['B'], mkdom(c['b'], 'tuple'))
+        el = fggs.EdgeLabel('t', [nl[x] for x in c['type']], is_terminal=True)
+        fd = [mkdom(d) for d in c['fdoms']]
+        fac = FiniteFactor(fd, torch.zeros([d.size() for d in fd]))
+    except Exception as e:  # noqa
+        raise MachineryFailure(f'bind case could not be set up: {e!r}')
+    try:
+        g.add_factor(el, fac)
+        r['shape'] = [int(x) for x in g.shape(el)]
+        try:
+            g.add_factor(el, fac)
+            r['second_rejected'] = False
+        except ValueError:
+            pass
+    except Exception as e:  # noqa
+        r['out'] = 'raise:' + type(e).__name__
+        r['bound_after'] = 't' in g.factors or g.has_edge_label_name('t')
+    return r
+
+
 def drive_pair(c):
     r = {'k': 'pair', 'd1': c['d1'], 'd2': c['d2'], 'out': 'ok', 'eq': False, 'ne': True, 'tag': ['pair']}
     try:
@@ -157,7 +213,7 @@ def run(tier, seed):
     o.assumptions = ['domain values are drawn from a 3-value universe of hashable python values (str, tuple, int)',
                      'binding clause judged on the FGG heap machine of C16 (spec/MC_HRG.tla, WithInterp)']
     with Scratch() as work:
-        cfg = 'INIT Init\nNEXT Next\nINVARIANT NumberingIsBijection\nINVARIANT Dump\nCHECK_DEADLOCK FALSE\n'
+        cfg = 'INIT Init\nNEXT Next\nCONSTANT WithBind = TRUE\nINVARIANT NumberingIsBijection\nINVARIANT Dump\nCHECK_DEADLOCK FALSE\n'
         r = run_tlc(work / 'gen', 'MC_Domains', cfg, workers=1)
         o.add_tlc(r)
         specs = [c for c in r.printed if isinstance(c, dict) and 'k' in c]
@@ -169,11 +225,19 @@ def run(tier, seed):
                     cases.append(drive_dom(c, form))
             elif c['k'] == 'pair':
                 cases.append(drive_pair(c))
+            elif c['k'] == 'bind':
+                cases.append(drive_bind(c, 'fgg' if len(cases) % 2 else 'fgraph'))
             else:
                 for form in ('list', 'tensor', 'patterned'):
                     if form == 'list' and 0 in c['wshape'] and len(c['wshape']) > 1:
                         continue  # a nested list cannot express a shape like (0, 2)
                     cases.append(drive_fac(c, form))
+        fin = [d for d in doms if d['cls'] == 'finite']
+        for d in fin:
+            for d2 in fin:
+                if d2['vals'] != d['vals'] and (len(d2['vals']) != len(d['vals']) or sorted(d2['vals']) == sorted(d['vals'])) \
+                        and abs(len(d2['vals']) - len(d['vals'])) <= 1:
+                    cases.append(drive_dom_hist(d, d2, 'resize' if len(d2['vals']) != len(d['vals']) else 'reorder'))
         small = [d for d in doms if d['cls'] == 'range' or d['vals'] in ([], [1], [2, 1], [1, 2, 3], [3, 1])]
         for k in (0, 1, 2):
             for ds in itertools.product(small, repeat=k):
